@@ -121,9 +121,9 @@ int snoopy_util_parser_strByteLength (char const * const numberAsText, const int
     char const *numberAsTextPtr       = numberAsText;
     int  numbersBufLength             = 20; // 20 characters are needed to store max long long int in decimal representation + \0.
     char numbersBuf[numbersBufLength];
-    int  numberInt;
-    int  factor = 1;
-    int  result;
+    unsigned long long  number;
+    unsigned long long  factor = 1;
+    unsigned long long  result;
 
     // Extract numbers
     while ((*numberAsTextPtr != '\0') && isdigit(*numberAsTextPtr) && (numberAsTextPtr-numberAsText < numbersBufLength-2)) {
@@ -132,10 +132,16 @@ int snoopy_util_parser_strByteLength (char const * const numberAsText, const int
     }
     numbersBuf[numberAsTextPtr - numberAsText] = '\0';
 
-    // Convert to int
-    numberInt = atoi(numbersBuf);
-    if (numberInt == 0) {
+    // Convert to a number (at most 18 digits have been extracted, which always fit)
+    number = strtoull(numbersBuf, NULL, 10);
+    if (number == 0) {
         return valDefault;
+    }
+
+    // Anything above the maximum ends up as the maximum anyway; limiting the number
+    // here keeps the multiplication below from overflowing
+    if (number > (unsigned long long) valMax) {
+        number = (unsigned long long) valMax;
     }
 
     // Apply metric prefixes
@@ -144,11 +150,11 @@ int snoopy_util_parser_strByteLength (char const * const numberAsText, const int
     } else if ((*numberAsTextPtr == 'm') || (*numberAsTextPtr == 'M')) {
         factor = 1024*1024;
     }
-    result = numberInt * factor;
+    result = number * factor;
 
     // Apply limits
-    if (result < valMin) result = valMin;
-    if (result > valMax) result = valMax;
+    if (result < (unsigned long long) valMin) result = (unsigned long long) valMin;
+    if (result > (unsigned long long) valMax) result = (unsigned long long) valMax;
 
-    return result;
+    return (int) result;
 }
